@@ -182,6 +182,7 @@ func registerVrt(w *World) {
 			in.Events = append(in.Events, Event{Kind: "inconclusive", Msg: "solver unknown on assertion: " + msg, Where: in.where()})
 			in.pc = append(in.pc, c)
 		default:
+			in.crossUnsat(Not(c))
 			in.pc = append(in.pc, c)
 		}
 		return nil
